@@ -63,6 +63,25 @@ Alt(name, t) == [n |-> name, t |-> t]
 Enum(sel, tagfield, alts) == [k |-> "enum", sel |-> sel, tag |-> tagfield, alts |-> alts]
 FAlt(tag, name, t) == [tag |-> tag, n |-> name, t |-> t]
 Frame(alts) == [k |-> "frame", alts |-> alts]
+\* ---- constructors used by the JAMNP-S (CE) message types
+\* fixed-width integer restricted to lo..hi (little-endian tuples of the same width)
+URange(n, lo, hi) == [k |-> "ur", n |-> n, lo |-> lo, hi |-> hi]
+\* n bits packed into nb octets, kept as the nb-octet tuple; padding bits must be zero
+PBits(n, nb) == [k |-> "pbits", n |-> n, nb |-> nb]
+\* length-prefixed blob with a minimum length
+BlobMin(m) == [k |-> "blobm", min |-> m]
+\* sequence with min..max items (max < 0: unbounded) whose count is a general natural (lw = 0) or an lw-octet integer
+SeqX(t, lo, hi, lw) == [k |-> "seqx", of |-> t, min |-> lo, max |-> hi, lw |-> lw]
+\* a value that is present / absent according to something decoded earlier (no discriminator of its own)
+Some(t) == [k |-> "some", of |-> t]
+NoneT == [k |-> "none"]
+\* structure whose last field (JSON name dn) has a type that depends on the fields before it:
+\*   rule "flag0": ts[1] if field ctl is the octet 0, else ts[2]
+\*   rule "ce144": ts[1] if field 2 (tranche) is 0, else one ts[2] per work-report announced in field 3
+DStruct(fs, dn, rule, ctl, ts) == [k |-> "dstruct", f |-> fs, dn |-> dn, rule |-> rule, ctl |-> ctl, ts |-> ts]
+DepType(ty, acc) ==
+  IF ty.rule = "flag0" THEN (IF acc[ty.ctl] = <<0>> THEN ty.ts[1] ELSE ty.ts[2])
+  ELSE IF acc[2] = <<0>> THEN ty.ts[1] ELSE Struct(<<F("SubsequentEvidence", FSeq(Len(acc[3][1]), ty.ts[2]))>>)
 
 \* ---------------------------------------------------------------- helpers
 Pad8(v) == v \o Zeros(8 - Len(v))
@@ -136,11 +155,17 @@ Canon(ty, j) ==
     [] ty.k = "frame" ->
          LET i == IndexOfTag(ty.alts, j.Type[1], 1) IN
          IF i = 0 \/ Len(j[ty.alts[i].n]) = 0 THEN <<0, <<>>>> ELSE <<i, Canon(ty.alts[i].t, j[ty.alts[i].n][1])>>
+    [] ty.k = "seqx" -> [x \in 1..Len(j) |-> Canon(ty.of, j[x])]
+    [] ty.k = "some" -> IF Len(j) = 0 THEN <<>> ELSE <<Canon(ty.of, j[1])>>
+    [] ty.k = "none" -> <<>>
+    [] ty.k = "dstruct" -> LET pre == CanonFields(ty.f, j) IN Append(pre, Canon(DepType(ty, pre), j[ty.dn]))
     [] OTHER -> j
 
 \* ---------------------------------------------------------------- well-formed canonical values
 RECURSIVE Valid(_, _)
 AllBytes(v) == \A x \in 1..Len(v) : v[x] \in Byte
+\* bits n+1 .. 8*Len(v) of the packed octets v are zero
+PadZero(v, n) == \A x \in (n + 1)..(8 * Len(v)) : BitOf(v[((x - 1) \div 8) + 1], (x - 1) % 8) = 0
 Valid(ty, v) ==
   CASE ty.k = "u" -> Len(v) = ty.n /\ AllBytes(v)
     [] ty.k = "nat" -> Len(v) = ty.w /\ AllBytes(v)
@@ -158,6 +183,14 @@ Valid(ty, v) ==
     [] ty.k = "bits" -> Len(v) = ty.n /\ \A x \in 1..Len(v) : v[x] \in {0, 1}
     [] ty.k = "enum" -> v[1] \in 1..Len(ty.alts) /\ Valid(ty.alts[v[1]].t, v[2])
     [] ty.k = "frame" -> v[1] \in 1..Len(ty.alts) /\ Valid(ty.alts[v[1]].t, v[2])
+    [] ty.k = "ur" -> Len(v) = ty.n /\ AllBytes(v) /\ CmpNumLE(ty.lo, v) <= 0 /\ CmpNumLE(v, ty.hi) <= 0
+    [] ty.k = "pbits" -> Len(v) = ty.nb /\ AllBytes(v) /\ PadZero(v, ty.n)
+    [] ty.k = "blobm" -> AllBytes(v) /\ Len(v) >= ty.min
+    [] ty.k = "seqx" -> Len(v) >= ty.min /\ (ty.max < 0 \/ Len(v) <= ty.max) /\ \A x \in 1..Len(v) : Valid(ty.of, v[x])
+    [] ty.k = "some" -> Len(v) = 1 /\ Valid(ty.of, v[1])
+    [] ty.k = "none" -> Len(v) = 0
+    [] ty.k = "dstruct" -> Len(v) = Len(ty.f) + 1 /\ (\A x \in 1..Len(ty.f) : Valid(ty.f[x].t, v[x]))
+                           /\ Valid(DepType(ty, v), v[Len(v)])
 
 \* ---------------------------------------------------------------- encoding
 RECURSIVE EncC(_, _), EncRange(_, _, _, _), EncFieldsRange(_, _, _, _), EncPairsRange(_, _, _, _, _)
@@ -187,6 +220,12 @@ EncC(ty, v) ==
     [] ty.k = "bits" -> PackBits(v, ty.nb)
     [] ty.k = "enum" -> <<v[1] - 1>> \o EncC(ty.alts[v[1]].t, v[2])
     [] ty.k = "frame" -> LET b == EncC(ty.alts[v[1]].t, v[2]) IN LE(Len(b) + 1, 4) \o <<ty.alts[v[1]].tag>> \o b
+    [] ty.k \in {"ur", "pbits"} -> v
+    [] ty.k = "blobm" -> EncLen(Len(v)) \o v
+    [] ty.k = "seqx" -> (IF ty.lw = 0 THEN EncLen(Len(v)) ELSE LE(Len(v), ty.lw)) \o EncRange(ty.of, v, 1, Len(v))
+    [] ty.k = "some" -> EncC(ty.of, v[1])
+    [] ty.k = "none" -> <<>>
+    [] ty.k = "dstruct" -> EncFieldsRange(ty.f, v, 1, Len(ty.f)) \o EncC(DepType(ty, v), v[Len(v)])
 
 \* encoding of a JSON value tree
 Enc(ty, j) == EncC(ty, Canon(ty, j))
@@ -281,6 +320,29 @@ DecAt(ty, s, i) ==
                    IF ~r.ok THEN r
                    ELSE IF r.i # Len(body) + 1 THEN Fail("trailing bytes in frame payload")
                    ELSE Ok(<<a, r.v>>, i + 4 + n)
+    [] ty.k = "ur" ->
+         IF Remaining(s, i) < ty.n THEN Fail("truncated")
+         ELSE LET v == Sub(s, i, i + ty.n - 1) IN
+              IF CmpNumLE(ty.lo, v) > 0 \/ CmpNumLE(v, ty.hi) > 0 THEN Fail("integer out of range") ELSE Ok(v, i + ty.n)
+    [] ty.k = "pbits" ->
+         IF Remaining(s, i) < ty.nb THEN Fail("truncated")
+         ELSE LET v == Sub(s, i, i + ty.nb - 1) IN IF PadZero(v, ty.n) THEN Ok(v, i + ty.nb) ELSE Fail("padding bits set")
+    [] ty.k = "blobm" ->
+         LET b == BlobAt(s, i) IN IF ~b.ok THEN b ELSE IF Len(b.v) < ty.min THEN Fail("blob too short") ELSE b
+    [] ty.k = "seqx" ->
+         LET l == IF ty.lw = 0 THEN NatAt(s, i)
+                  ELSE IF Remaining(s, i) < ty.lw THEN Fail("truncated")
+                  ELSE [ok |-> TRUE, n |-> FromLE(Sub(s, i, i + ty.lw - 1)), i |-> i + ty.lw] IN
+         IF ~l.ok THEN l
+         ELSE IF l.n < 0 \/ l.n > Remaining(s, l.i) THEN Fail("count exceeds input")
+         ELSE IF l.n < ty.min \/ (ty.max >= 0 /\ l.n > ty.max) THEN Fail("count out of range")
+         ELSE DecN(ty.of, s, l.i, l.n, <<>>)
+    [] ty.k = "some" -> LET r == DecAt(ty.of, s, i) IN IF ~r.ok THEN r ELSE Ok(<<r.v>>, r.i)
+    [] ty.k = "none" -> Ok(<<>>, i)
+    [] ty.k = "dstruct" ->
+         LET p == DecFields(ty.f, s, i, 1, <<>>) IN
+         IF ~p.ok THEN p
+         ELSE LET r == DecAt(DepType(ty, p.v), s, p.i) IN IF ~r.ok THEN r ELSE Ok(Append(p.v, r.v), r.i)
 
 \* top-level: [ok, v, used]
 Dec(ty, s) == LET r == DecAt(ty, s, 1) IN IF r.ok THEN [ok |-> TRUE, v |-> r.v, used |-> r.i - 1] ELSE r
@@ -349,6 +411,20 @@ EL(ty, v, off) ==
          LET r == EL(ty.alts[v[1]].t, v[2], off + 5) IN
          [b |-> LE(Len(r.b) + 1, 4) \o <<ty.alts[v[1]].tag>> \o r.b,
           m |-> <<Mark(off, 4, "flen", 0), Mark(off + 4, 1, "ftag", 0)>> \o r.m]
+    [] ty.k = "ur" -> [b |-> v, m |-> <<Mark(off, Len(v), "fix", 0)>>]
+    [] ty.k = "pbits" -> [b |-> v, m |-> <<Mark(off, Len(v), "bits", 0)>>]
+    [] ty.k = "blobm" ->
+         LET l == EncLen(Len(v)) IN
+         [b |-> l \o v, m |-> <<Mark(off, Len(l), "len", Len(v))>> \o (IF Len(v) > 0 THEN <<Mark(off + Len(l), Len(v), "body", 0)>> ELSE <<>>)]
+    [] ty.k = "seqx" ->
+         LET l == IF ty.lw = 0 THEN EncLen(Len(v)) ELSE LE(Len(v), ty.lw)
+             r == ELSeq(ty.of, v, 1, off + Len(l)) IN
+         [b |-> l \o r.b, m |-> <<Mark(off, Len(l), IF ty.lw = 0 THEN "len" ELSE "flen", Len(v))>> \o r.m]
+    [] ty.k = "some" -> EL(ty.of, v[1], off)
+    [] ty.k = "none" -> [b |-> <<>>, m |-> <<>>]
+    [] ty.k = "dstruct" ->
+         LET h == ELFields(ty.f, v, 1, off)
+             r == EL(DepType(ty, v), v[Len(v)], off + Len(h.b)) IN [b |-> h.b \o r.b, m |-> h.m \o r.m]
 
 \* ---------------------------------------------------------------- design properties (MC_Codec)
 RoundTripC(ty, v) == LET b == EncC(ty, v) IN Dec(ty, b) = [ok |-> TRUE, v |-> v, used |-> Len(b)]
